@@ -693,7 +693,8 @@ theorem isOpen_false_of {c : Client} (hos : c.isOpen = !c.stopped) (hst : c.stop
 theorem admitA_inv {s : Server} {i : Nat} {k : Connect} (h : SyncInvX (· = i) s) (hw : WF s)
     (hi : i < s.objs.length) (hid : (getObj s i).id = k.id) (hunreg : ∀ c, assocGet s.clients c ≠ some i)
     (hpi : ∀ p ∈ s.pending, p.obj ≠ i) (hto : (getObj s i).takenOver = false) :
-    SyncInv (admitA s i k).1 ∧ Lst s (admitA s i k).1 := by
+    SyncInv (admitA s i k).1 ∧ Lst s (admitA s i k).1 ∧
+      ∀ e, assocGet s.clients k.id = some e → (getObj (admitA s i k).1 e).takenOver = true := by
   unfold admitA
   extract_lets +onlyGivenNames src s0 exLive
   have q0 : Quiet s s0 := (Quiet.refl s).upd8
@@ -701,7 +702,9 @@ theorem admitA_inv {s : Server} {i : Nat} {k : Connect} (h : SyncInvX (· = i) s
   have h0 : SyncInvX (· = i) s0 := h.of_quiet q0
   split
   rename_i s' o1 present heq
-  show SyncInv { s' with clients := assocSet s'.clients k.id i } ∧ Lst s { s' with clients := assocSet s'.clients k.id i }
+  show SyncInv { s' with clients := assocSet s'.clients k.id i } ∧
+    Lst s { s' with clients := assocSet s'.clients k.id i } ∧
+    ∀ e, assocGet s.clients k.id = some e → (getObj s' e).takenOver = true
   split at heq
   · rename_i e hce
     have hce : assocGet s.clients k.id = some e := hce
@@ -745,7 +748,12 @@ theorem admitA_inv {s : Server} {i : Nat} {k : Connect} (h : SyncInvX (· = i) s
         rw [(q3.obj e).subs]; exact unsubscribeClient_subs sD e heD
       have sm : Same sD (modObj s3 e (fun x => { x with takenOver := true })) := o3.same.trans (same_setObj s3 e _)
       refine ⟨SyncInvX.register hD wD hunregD hpiD sm.len sm.connOf sm.clients sm.pending sm.parked sm.parkedEarly
-        ?_ ?_ ?_ (o3.idx hD.idx) ?_ ?_, ⟨?_, ?_⟩⟩
+        ?_ ?_ ?_ (o3.idx hD.idx) ?_ ?_, ⟨?_, ?_⟩, ?_⟩
+      rotate_right
+      · intro e' he'
+        rw [hce] at he'
+        cases he'
+        rw [hGe]
       · intro k' hk'i hk'
         rw [hGk k' (hne_iff k' hk')]
         exact o3.other k' (hne_iff k' hk')
@@ -852,7 +860,12 @@ theorem admitA_inv {s : Server} {i : Nat} {k : Connect} (h : SyncInvX (· = i) s
         intro c f hcf
         exact (Entry.congr q23.plain q23.shared c f).mp hcf
       refine ⟨SyncInvX.register hD wD hunregD hpiD sm.len sm.connOf sm.clients sm.pending sm.parked sm.parkedEarly
-        ?_ ?_ ?_ ?_ ?_ ?_, ⟨?_, ?_⟩⟩
+        ?_ ?_ ?_ ?_ ?_ ?_, ⟨?_, ?_⟩, ?_⟩
+      rotate_right
+      · intro e' he'
+        rw [hce] at he'
+        cases he'
+        rw [(q56.obj e).takenOver, hs5e]; exact hto4
       · intro k' hk'i hk'
         have hk'e := hne_iff k' hk'
         refine ((QC.of_eq (hs2k k' hk'e).symm).trans (q23.obj k')).trans ?_
@@ -898,7 +911,10 @@ theorem admitA_inv {s : Server} {i : Nat} {k : Connect} (h : SyncInvX (· = i) s
     have hce : assocGet s.clients k.id = none := hce
     cases heq
     refine ⟨SyncInvX.register h0 w0 hunreg hpi rfl rfl rfl rfl rfl rfl (fun k' _ _ => QC.refl _) ?_ ?_ h0.idx
-      (fun c f _ hcf => hcf) ?_, ⟨rfl, rfl⟩⟩
+      (fun c f _ hcf => hcf) ?_, ⟨rfl, rfl⟩, ?_⟩
+    rotate_right
+    · intro e' he'
+      rw [hce] at he'; cases he'
     · intro e' he'
       have : assocGet s.clients k.id = some e' := he'
       rw [hce] at this; cases this
